@@ -172,9 +172,15 @@ func NewSymbolicStore(u *Universe) *Store {
 		names = append(names, n)
 	}
 	sort.Strings(names)
+	qMet, qErr := map[string]bool{}, map[string]bool{}
 	for _, n := range names {
-		s.CondMet[n] = vt.Bool("met_" + n)
-		s.CondErr[n] = vt.Bool("cerr_" + n)
+		// the engine side forks on the outcome (keeps strings concrete); the oracle uses merged aliases
+		s.CondMet[n] = vt.ForkBool("met_" + n)
+		s.CondErr[n] = vt.ForkBool("cerr_" + n)
+		qMet[n] = vt.Bool("qmet_" + n)
+		qErr[n] = vt.Bool("qcerr_" + n)
+		vt.Assume(qMet[n] == s.CondMet[n])
+		vt.Assume(qErr[n] == s.CondErr[n])
 	}
 	for i, c := range u.Cands {
 		id := strconv.Itoa(i)
@@ -185,7 +191,7 @@ func NewSymbolicStore(u *Universe) *Store {
 		s.Q = append(s.Q, q)
 		met, cerr := true, false
 		if c.Cond != "" {
-			met, cerr = s.CondMet[c.Cond], s.CondErr[c.Cond]
+			met, cerr = qMet[c.Cond], qErr[c.Cond]
 		}
 		s.Met = append(s.Met, met)
 		s.Err = append(s.Err, cerr)
